@@ -28,7 +28,7 @@ WORLD_INFO = {'real': ['cassandra.connection.Connection (send_msg, defunct, erro
               'stub': ['libev C binding', 'sockets/TCP', 'scripted peer', 'sender/closer threads (harness)']}
 ASSUMPTIONS = ['a request whose OWN response frame is undecodable may receive that decode exception instead of a connection error',
                'heartbeat failure is represented by what ConnectionHeartbeat does on failure: connection.defunct(exc) from another thread (the heartbeat itself is C44)']
-REQUIRED_PROBES = ['failure_with_outstanding', 'error_thread_path', 'send_after_failure', 'cp_session', 'concurrent_failures']
+REQUIRED_PROBES = ['handler_raised', 'failure_with_outstanding', 'error_thread_path', 'send_after_failure', 'cp_session', 'concurrent_failures']
 
 KINDS = ['rst', 'eof', 'garbage_body', 'protocol_error', 'negative_len', 'bad_version', 'close_thread',
          'defunct_thread', 'write_error']
@@ -44,6 +44,11 @@ def gen_plan(rng, tier):
     nthreads = rng.choice([1, 2, 3])
     reqs = [{'thread': rng.randrange(nthreads), 'delay': rng.choice([None, None, 0.0, 0.001, 0.005, 0.02]),
              'think': rng.choice([0, 0, 0, 0.001])} for _ in range(n)]
+    if rng.random() < 0.3:
+        # misbehaving handlers: they record the invocation and then raise; the other handlers must still be served
+        for r in reqs:
+            if rng.random() < 0.3:
+                r['raises'] = True
     return {
         'version': rng.choice([3, 4, 4]),
         'threshold': rng.choice([2, 100]),
@@ -139,6 +144,9 @@ def run_plan(plan, seed, choices=None):
                 own = bool(rows) and rows[0][0] == k
                 h['calls'].append((sim.nlog, 'response', type(response).__name__, own))
             sim.rec('handler', 'rid=%d %s' % (k, type(response).__name__))
+            if k < len(plan['requests']) and plan['requests'][k].get('raises'):
+                sim.probe('handler_raised')
+                raise RuntimeError('handler of rid %d raises (harness: misbehaving handler)' % k)
         return cb
 
     def do_send(conn, k):
